@@ -2,7 +2,7 @@
    way geometry, at most one feature per element.  All statements are for arbitrary [join] and
    [ring_of] (the mputil functions are Section variables of the model). *)
 From Coq Require Import ZArith String List Bool Lia.
-From Verif Require Import C17.Model C17.Spec.
+From Verif Require Import C17.Model C17.Spec C17.ProofsPacked.
 Import ListNotations.
 Open Scope Z_scope.
 Open Scope list_scope.
@@ -11,13 +11,6 @@ Arguments way_line : simpl never.
 Arguments has_interesting : simpl never.
 
 (* ---------- small list facts ---------- *)
-Lemma flat_map_ext_in {A B} (f g : A -> list B) (l : list A) :
-  (forall a, In a l -> f a = g a) -> flat_map f l = flat_map g l.
-Proof.
-  induction l as [|a l IH]; intros H; [reflexivity|].
-  cbn. rewrite (H a (or_introl eq_refl)). f_equal. apply IH. intros b Hb. apply H. right. exact Hb.
-Qed.
-
 Lemma map_flat_map {A B C} (h : B -> C) (f : A -> list B) (l : list A) :
   map h (flat_map f l) = flat_map (fun a => map h (f a)) l.
 Proof. induction l as [|a l IH]; [reflexivity|]. cbn. rewrite map_app, IH. reflexivity. Qed.
@@ -154,10 +147,51 @@ Section Shape.
     - right. apply IH. exact H.
   Qed.
 
+  (* an outer segment comes from an outer-role way member of the relation *)
+  Lemma outer_in_members d rt ms s w :
+    In (s, w) (flat_map ps_outer (map (poly_step d rt) ms)) ->
+    exists m, In m ms /\ is_outer_way m = true /\ w_id w = m_ref m.
+  Proof.
+    induction ms as [|m ms IH]; cbn; [tauto|].
+    rewrite in_app_iff. intros [H|H].
+    - destruct (poly_step_outer _ _ _ _ _ H) as [Ht [Ho Hw]]. exists m. split; [left; reflexivity|].
+      split; [|exact Hw]. unfold is_outer_way. rewrite Ht, Ho. reflexivity.
+    - destruct (IH H) as [m' [Hm' H']]. exists m'. split; [right; exact Hm'|exact H'].
+  Qed.
+
+  (* on relations whose own id and outer way members are in [0,2^40) buildPolygon's identity tail
+     is the plain one *)
+  Lemma poly_result_exact o d r :
+    poly_in_range r = true -> poly_result o d r = poly_result_with join ring_of mk_feature o d r.
+  Proof.
+    intros Hin. unfold Model.poly_result, Model.poly_result_with.
+    set (steps := map (poly_step d (r_tags r)) (r_members r)).
+    destruct (is_nil (flat_map ps_outer steps) && negb (inclInvalid o)); [reflexivity|].
+    pose proof (poly_in_range_id r Hin) as Hid.
+    destruct (flat_map ps_outer steps) as [|[s w] rest] eqn:Houter.
+    - destruct (is_nil _ && negb _); [reflexivity|].
+      destruct (mp_geom _); [|reflexivity]. rewrite mk_poly_feature_exact by (discriminate || exact Hid). reflexivity.
+    - assert (Hw : in40 (w_id w) = true).
+      { destruct (outer_in_members d (r_tags r) (r_members r) s w) as [m [Hm [Ho Hw]]].
+        - fold steps. rewrite Houter. left. reflexivity.
+        - rewrite Hw. exact (poly_in_range_outer r m Hin Hm Ho). }
+      destruct rest as [|p rest].
+      + destruct (fold_right Z.add 0 (map ps_cnt steps) =? 1).
+        * destruct (ring_invalid _); [reflexivity|].
+          destruct (has_interesting (r_tags r) (Some old_style_ignore)).
+          -- rewrite mk_poly_feature_exact by (discriminate || exact Hid). reflexivity.
+          -- rewrite mk_poly_feature_exact by (discriminate || exact Hw). reflexivity.
+        * destruct (is_nil _ && negb _); [reflexivity|].
+          destruct (mp_geom _); [|reflexivity]. rewrite mk_poly_feature_exact by (discriminate || exact Hid). reflexivity.
+      + destruct (is_nil _ && negb _); [reflexivity|].
+        destruct (mp_geom _); [|reflexivity]. rewrite mk_poly_feature_exact by (discriminate || exact Hid). reflexivity.
+  Qed.
+
   Lemma poly_result_key o d r f :
+    poly_in_range r = true ->
     is_mp r = true -> snd (poly_result o d r) = Some f -> rel_key_ok r f.
   Proof.
-    intros Hmp. unfold Model.poly_result.
+    intros Hin Hmp. rewrite (poly_result_exact o d r Hin). unfold Model.poly_result_with.
     set (steps := map (poly_step d (r_tags r)) (r_members r)).
     destruct (is_nil (flat_map ps_outer steps) && negb (inclInvalid o)); cbn; [discriminate|].
     destruct (flat_map ps_outer steps) as [|[s w] rest] eqn:Houter.
@@ -171,31 +205,34 @@ Section Shape.
           -- intros H. injection H as <-. right. exists (w_id w). split; [|reflexivity].
              unfold adopt_candidate. rewrite Hmp, Hi. cbn.
              apply Z.eqb_eq in Hc. subst steps. rewrite cnt_sum_outer_refs in Hc.
-             assert (Hin : In (w_id w) (outer_refs r)).
+             assert (Hinr : In (w_id w) (outer_refs r)).
              { apply (outer_in_refs d (r_tags r) _ s). rewrite Houter. left. reflexivity. }
              unfold outer_refs in *.
              destruct (flat_map _ (r_members r)) as [|x [|y l]]; cbn in Hc; try lia.
-             destruct Hin as [->|[]]. reflexivity.
+             destruct Hinr as [->|[]]. reflexivity.
         * destruct (is_nil _ && negb _); cbn; [discriminate|].
           destruct (mp_geom _); cbn; [|discriminate]. intros H. injection H as <-. left. reflexivity.
       + destruct (is_nil _ && negb _); cbn; [discriminate|].
         destruct (mp_geom _); cbn; [|discriminate]. intros H. injection H as <-. left. reflexivity.
   Qed.
 
-  Lemma rel_result_key o d r f : snd (rel_result o d r) = Some f -> rel_key_ok r f.
+  Lemma rel_result_key o d r f :
+    (is_mp r = true -> poly_in_range r = true) -> snd (rel_result o d r) = Some f -> rel_key_ok r f.
   Proof.
-    unfold Model.rel_result.
+    intros Hin. unfold Model.rel_result.
     destruct (String.eqb (tag_find (r_tags r) "type") "route") eqn:Hr.
     - intros H. left. exact (route_result_key _ _ _ _ H).
     - destruct (String.eqb _ "multipolygon" || String.eqb _ "boundary") eqn:Hm; [|discriminate].
-      apply poly_result_key. unfold is_mp. rewrite Hr, Hm. reflexivity.
+      assert (Hmp : is_mp r = true) by (unfold is_mp; rewrite Hr, Hm; reflexivity).
+      apply poly_result_key; [exact (Hin Hmp)|exact Hmp].
   Qed.
 
   (* an adopted way is added to skippable by the same relation *)
   Lemma poly_result_adopts_skips o d r f x :
+    poly_in_range r = true ->
     snd (poly_result o d r) = Some f -> fkey f = (TWay, x) -> In x (fst (poly_result o d r)).
   Proof.
-    unfold Model.poly_result.
+    intros Hin. rewrite (poly_result_exact o d r Hin). unfold Model.poly_result_with.
     set (steps := map (poly_step d (r_tags r)) (r_members r)).
     destruct (is_nil (flat_map ps_outer steps) && negb (inclInvalid o)); cbn; [discriminate|].
     destruct (flat_map ps_outer steps) as [|[s w] rest].
@@ -215,13 +252,14 @@ Section Shape.
   Qed.
 
   Lemma rel_result_adopts_skips o d r f x :
+    (is_mp r = true -> poly_in_range r = true) ->
     snd (rel_result o d r) = Some f -> fkey f = (TWay, x) -> In x (fst (rel_result o d r)).
   Proof.
-    unfold Model.rel_result.
-    destruct (String.eqb (tag_find (r_tags r) "type") "route").
+    intros Hin. unfold Model.rel_result.
+    destruct (String.eqb (tag_find (r_tags r) "type") "route") eqn:Hr.
     - intros H Hk. rewrite (route_result_key _ _ _ _ H) in Hk. discriminate.
-    - destruct (String.eqb _ "multipolygon" || String.eqb _ "boundary"); [|discriminate].
-      apply poly_result_adopts_skips.
+    - destruct (String.eqb _ "multipolygon" || String.eqb _ "boundary") eqn:Hm; [|discriminate].
+      apply poly_result_adopts_skips. apply Hin. unfold is_mp. rewrite Hr, Hm. reflexivity.
   Qed.
 
   (* ---------- keys of the three passes ---------- *)
@@ -259,10 +297,10 @@ Section Shape.
     destruct (node_feature o d n); cbn in Hf; [|tauto]. destruct Hf as [->|[]]. reflexivity.
   Qed.
 
-  Lemma rel_feature_type o d f : In f (rel_features o d) -> f_type f <> TNode.
+  Lemma rel_feature_type o d f : poly_ids_ok d = true -> In f (rel_features o d) -> f_type f <> TNode.
   Proof.
-    intros H. destruct (rel_features_in _ _ _ H) as [r [_ Hf]].
-    destruct (rel_result_key _ _ _ _ Hf) as [Hk|[x [_ Hk]]]; unfold fkey in Hk; injection Hk as Ht _;
+    intros Hok H. destruct (rel_features_in _ _ _ H) as [r [Hrl Hf]].
+    destruct (rel_result_key _ _ _ _ (poly_ids_ok_rel d r Hok Hrl) Hf) as [Hk|[x [_ Hk]]]; unfold fkey in Hk; injection Hk as Ht _;
       rewrite Ht; discriminate.
   Qed.
 
@@ -337,15 +375,16 @@ Section Shape.
     NoDup (map n_id (nodes d)) /\ NoDup (map w_id (ways d)) /\ NoDup (map r_id (relations d)).
 
   Theorem at_most_one_feature_per_element o d :
+    poly_ids_ok d = true ->
     ids_unique d -> adoption_unique d -> NoDup (map fkey (convert o d)).
   Proof.
-    intros [Hn [Hw Hr]] Hadopt. unfold Model.convert. rewrite !map_app.
+    intros Hok [Hn [Hw Hr]] Hadopt. unfold Model.convert. rewrite !map_app.
     apply NoDup_app_intro; [|apply NoDup_app_intro|].
     - (* relation pass *)
       unfold Model.rel_features. apply NoDup_keys_olist; [exact (NoDup_map_inv _ _ Hr)|].
       intros r s x y Hrl Hsl Hx Hy Hk.
-      destruct (rel_result_key _ _ _ _ Hx) as [Kx|[wx [Cx Kx]]];
-        destruct (rel_result_key _ _ _ _ Hy) as [Ky|[wy [Cy Ky]]]; rewrite Kx, Ky in Hk.
+      destruct (rel_result_key _ _ _ _ (poly_ids_ok_rel d r Hok Hrl) Hx) as [Kx|[wx [Cx Kx]]];
+        destruct (rel_result_key _ _ _ _ (poly_ids_ok_rel d s Hok Hsl) Hy) as [Ky|[wy [Cy Ky]]]; rewrite Kx, Ky in Hk.
       + injection Hk as Hid. exact (NoDup_map_inj_in r_id _ _ _ Hr Hrl Hsl Hid).
       + discriminate.
       + discriminate.
@@ -387,12 +426,12 @@ Section Shape.
       apply in_app_or in Hg. destruct Hg as [Hg|Hg].
       + destruct (way_features_in _ _ _ Hg) as [w [Hwl [Hskip Hwf]]].
         pose proof (way_feature_key _ _ _ _ Hwf) as Kg. rewrite Hk in Kg.
-        pose proof (rel_result_adopts_skips _ _ _ _ _ Hrf Kg) as Hin.
+        pose proof (rel_result_adopts_skips _ _ _ _ _ (poly_ids_ok_rel d r Hok Hrl) Hrf Kg) as Hin.
         assert (Hs : In (w_id w) (skippable o d)).
         { unfold Model.skippable. apply in_flat_map. exists r. split; assumption. }
         apply memZ_In in Hs. congruence.
       + destruct (node_features_in _ _ _ Hg) as [n [_ [_ Hng]]].
         pose proof (node_feature_key _ _ _ _ Hng) as Kg. rewrite Hk in Kg.
-        apply (rel_feature_type _ _ _ Hf). unfold fkey in Kg. injection Kg as Kt _. exact Kt.
+        apply (rel_feature_type _ _ _ Hok Hf). unfold fkey in Kg. injection Kg as Kt _. exact Kt.
   Qed.
 End Shape.
